@@ -1,31 +1,27 @@
 """C03 native replay: results must list atoms in register order and must not depend on the
-qubit-order optimisation -- for a normal run and for a run resumed from an autosave."""
+qubit-order optimisation -- clause-level checks of __init__ / permute_results on concrete data,
+then a normal run and a run resumed from an autosave."""
 import json, os, sys
 sys.path.insert(0, os.path.dirname(os.path.abspath(__file__)))
 import torch
 import perm_native as N
+import perm_units as U
 
 
 def main():
     N.setup()
     N.in_tmp_dir()
-    focus = ""
-    try:
-        with open(sys.argv[1]) as f:
-            focus = json.load(f).get("obligation", "")
-    except Exception:
-        pass
     from emu_mps import MPSBackend
+    findings = []
+    for unit in (U.permute_results_unit, U.init_unit):
+        m = unit()
+        if m:
+            findings.append(m)
     impl, sd, cfg = N.make_impl(True)
     perm = impl.qubit_permutation.tolist()
-    if perm == [0, 1, 2, 3]:
+    if perm == [0, 1, 2, 3] and not findings:
         print("NOT-REPRODUCED: the optimiser kept the register order (scenario needs a reordering)")
         return 0
-    order = impl.results.atom_order
-    if list(order) != [sd.qubit_ids[p] for p in perm]:
-        print(f"REPRODUCED: results.atom_order {order} is not qubit_ids permuted by {perm}")
-        return 1
-    findings = []
     # (a) resumed run
     impl, sd, cfg = N.make_impl(True, autosave_dt=11)
     impl.init()
@@ -36,30 +32,29 @@ def main():
     resumed = MPSBackend.resume(impl.autosave_file)
     _, full_on = N.run(True)
     if tuple(resumed.atom_order) != tuple(sd.qubit_ids):
-        findings.append(("resume", f"MPSBackend.resume returned atom_order {tuple(resumed.atom_order)} "
-                         f"(site order, perm {perm}); an uninterrupted run reports {tuple(full_on.atom_order)}; "
-                         f"occupation {[round(float(x), 5) for x in resumed.occupation[-1]]} vs "
-                         f"{[round(float(x), 5) for x in full_on.occupation[-1]]}"))
+        findings.append(f"MPSBackend.resume returned atom_order {tuple(resumed.atom_order)} "
+                        f"(site order, perm {perm}); an uninterrupted run reports {tuple(full_on.atom_order)}; "
+                        f"occupation {[round(float(x), 5) for x in resumed.occupation[-1]]} vs "
+                        f"{[round(float(x), 5) for x in full_on.occupation[-1]]}")
     # (b) optimisation on/off must agree
     _, full_off = N.run(False)
     a, b = torch.as_tensor(full_on.occupation[-1]), torch.as_tensor(full_off.occupation[-1])
     if tuple(full_on.atom_order) != tuple(sd.qubit_ids):
-        findings.append(("order", f"run() reports atom_order {tuple(full_on.atom_order)}"))
+        findings.append(f"run() reports atom_order {tuple(full_on.atom_order)}, register order is {tuple(sd.qubit_ids)}")
     if not torch.allclose(a, b, atol=1e-6):
-        findings.append(("drives", f"per-atom drives [1,2,3,4]: occupations with optimize_qubit_ordering=True "
-                         f"{[round(float(x), 5) for x in a]} differ from False {[round(float(x), 5) for x in b]} "
-                         f"(perm {perm}: the drives are not permuted with the sites)"))
+        findings.append(f"per-atom drives [1,2,3,4]: occupations with optimize_qubit_ordering=True "
+                        f"{[round(float(x), 5) for x in a]} differ from False {[round(float(x), 5) for x in b]} "
+                        f"(perm {perm})")
     if not findings:
-        print(f"NOT-REPRODUCED: perm {perm}: register order reported by run() and resume(); on/off agree")
+        print(f"NOT-REPRODUCED: perm {perm}: register order reported by run() and resume(); permute_results moves every "
+              "container home; on/off agree")
         return 0
-    # report the finding that matches the failed obligation first
-    want = "resume" if "resume" in focus else ("drives" if "drives" in focus else "")
-    findings.sort(key=lambda f: f[0] != want)
-    print("REPRODUCED: " + findings[0][1])
-    for _, txt in findings[1:]:
+    print("REPRODUCED: " + findings[0])
+    for txt in findings[1:]:
         print("  also: " + txt)
     return 1
 
 
 if __name__ == "__main__":
-    sys.exit(main())
+    ROOT = os.path.abspath(sys.argv[2] if len(sys.argv) > 2 else os.getcwd())
+    sys.exit(N.cached("c03", main, ROOT))
